@@ -84,6 +84,41 @@ pub fn run(thorough: bool, seed: u64, w: &mut impl std::io::Write) {
             }
         }
     }
+    // every byte value as filler of word-sized inputs (bit-trick searches that misfire on one particular value), with
+    // no terminator, a terminator at the very end, or one inside the first word; and every byte value as a single
+    // odd byte at each position of the first two words of an otherwise plain input
+    for v in 0..=255u8 {
+        for len in [8usize, 16, 17, 24, 33] {
+            for term in [&b"\n"[..], b"\r\n", b"\0"] {
+                let base = vec![v; len];
+                let mut at_end = base.clone();
+                at_end.extend_from_slice(term);
+                let mut inside = base.clone();
+                inside[3..3 + term.len()].copy_from_slice(term);
+                for s in [&base, &at_end, &inside] {
+                    for f in provided {
+                        line(f, s, w);
+                        n += 1;
+                    }
+                }
+            }
+        }
+        for p in 0..16usize {
+            for term in [&b"\n"[..], b"\r\n", b"\0"] {
+                let mut s = vec![b'a'; 24];
+                s[p] = v;
+                for f in provided {
+                    line(f, &s, w);
+                    n += 1;
+                }
+                s.extend_from_slice(term);
+                for f in provided {
+                    line(f, &s, w);
+                    n += 1;
+                }
+            }
+        }
+    }
     // the test deframers too (they are part of the T1/T2 ties)
     for s in strings(&[b'a', b'x', b'\n', 1, 2], 4) {
         for f in [Df::Reject, Df::RejectX, Df::LenPrefix] {
